@@ -1,6 +1,7 @@
 import AgVerif.Model.Proto
 import AgVerif.Model.Axml
-open AgVerif AgVerif.Proto AgVerif.Axml
+import AgVerif.Spec.AxmlFile
+open AgVerif AgVerif.Proto AgVerif.Axml AgVerif.Spec.Axml
 
 namespace C26Drv
 
@@ -50,6 +51,73 @@ end
 /-- abstract renderings are marked `U+F00tt <decimal digits of data> U+F00FF` (plane 15 is never generated) -/
 def opaqueMark (ty data : Nat) : Str := [0xF0000 + ty] ++ decNat data ++ [0xF00FF]
 
+/-! the file-level specification (`spec` request): a document as `/`-separated tokens
+    `E/line/tag/ns/ndecls/(prefix/uri)*/nattrs/(ns/name/raw/type/data/str)*/nkids/kid*`, `T/line/text`; `!` = no namespace -/
+
+def parseOptStr (s : String) : Option (Option Str) :=
+  if s == "!" then some none else (parseStr s).map some
+
+def parseDecls : Nat → List String → Option (List (Str × Str) × List String)
+  | 0, r => some ([], r)
+  | n + 1, p :: u :: r => do
+    let p ← parseStr p
+    let u ← parseStr u
+    let (ds, r) ← parseDecls n r
+    some ((p, u) :: ds, r)
+  | _, _ => none
+
+def parseSAttrs : Nat → List String → Option (List SAttr × List String)
+  | 0, r => some ([], r)
+  | n + 1, ns :: name :: raw :: ty :: data :: str :: r => do
+    let ns ← parseOptStr ns
+    let name ← parseStr name
+    let raw ← parseHexNat raw
+    let ty ← parseHexNat ty
+    let data ← parseHexNat data
+    let str ← parseStr str
+    let (as, r) ← parseSAttrs n r
+    some (⟨ns, name, raw, ty, data, str⟩ :: as, r)
+  | _, _ => none
+
+mutual
+partial def parseSNode : List String → Option (SNode × List String)
+  | "T" :: l :: t :: r => do
+    let l ← parseHexNat l
+    let t ← parseStr t
+    some (.text l t, r)
+  | "E" :: l :: tag :: ns :: nd :: r => do
+    let l ← parseHexNat l
+    let tag ← parseStr tag
+    let ns ← parseOptStr ns
+    let nd ← parseHexNat nd
+    let (decls, r) ← parseDecls nd r
+    match r with
+    | na :: r => do
+      let na ← parseHexNat na
+      let (attrs, r) ← parseSAttrs na r
+      match r with
+      | nk :: r => do
+        let nk ← parseHexNat nk
+        let (kids, r) ← parseSNodes nk r
+        some (.elem l tag ns decls attrs kids, r)
+      | [] => none
+    | [] => none
+  | _ => none
+partial def parseSNodes : Nat → List String → Option (List SNode × List String)
+  | 0, r => some ([], r)
+  | n + 1, r => do
+    let (k, r) ← parseSNode r
+    let (ks, r) ← parseSNodes n r
+    some (k :: ks, r)
+end
+
+def parseEnc (flags res strings : String) : Option Enc := do
+  let fl := flags.toList
+  let strs ← (if strings == "~" then some [] else (strings.splitOn "|").mapM parseStr)
+  let r ← (if res == "none" then some none else if res == "~" then some (some [])
+           else ((res.splitOn ",").mapM parseHexNat).map some)
+  some ⟨fl[0]? == some '1', fl[1]? == some '1', strs, r⟩
+
 def handle (line : String) : String :=
   match words line with
   | ["axml", h] =>
@@ -59,6 +127,11 @@ def handle (line : String) : String :=
       match printAxml opaqueMark bs with
       | .error e => "exc " ++ e
       | .ok (v, t) => "ok " ++ (if v then "1 " else "0 ") ++ (match t with | some n => showNode n | none => "none")
+  | ["spec", flags, res, strings, doc] =>
+    match parseEnc flags res strings, parseSNode (doc.splitOn "/") with
+    | some E, some (d, []) =>
+      "ok " ++ (if wfDoc opaqueMark E d then "1 " else "0 ") ++ toHex (encodeAxml E d) ++ " " ++ showNode (norm (treeOf opaqueMark d))
+    | _, _ => "bad-op"
   | ["sb", h] =>
     match parseHex h with
     | none => "bad-op"
